@@ -10,7 +10,7 @@ package authf
 
 //@ func (*BasicAuthInfo).ResetDefault
 //@   requires st != nil
-//@   modifies *st
+//@   pure
 //@   safety [C05]
 //
 //@ func (*BasicAuthInfo).ReadFrom
@@ -21,6 +21,28 @@ package authf
 //@   allocates
 //@   ensures [C05] readBuf.buf.i >= p0
 //@   ensures [C05] validR(readBuf)
+//@   let src = readBuf.buf.src
+//@   let d0 = readBuf.depth
+//@   let q0 = readBuf.buf.i
+//@   let k1 = decStrK(src, q0, 1, false, d0)
+//@   let q1 = (k1 == 0 ? decStrP(src, q0, 1, d0) : seekP(src, q0, 1, d0))
+//@   let ok1 = (k1 == 0 || (k1 == 1 && (seekK(src, q0, 1, d0) == 2 || (seekK(src, q0, 1, d0) == 1 && seekCanon(src, q0, 1, d0)))))
+//@   let k2 = decStrK(src, q1, 2, false, d0)
+//@   let q2 = (k2 == 0 ? decStrP(src, q1, 2, d0) : seekP(src, q1, 2, d0))
+//@   let ok2 = ok1 && (k2 == 0 || (k2 == 1 && (seekK(src, q1, 2, d0) == 2 || (seekK(src, q1, 2, d0) == 1 && seekCanon(src, q1, 2, d0)))))
+//@   let k3 = decStrK(src, q2, 3, false, d0)
+//@   let q3 = (k3 == 0 ? decStrP(src, q2, 3, d0) : seekP(src, q2, 3, d0))
+//@   let ok3 = ok2 && (k3 == 0 || (k3 == 1 && (seekK(src, q2, 3, d0) == 2 || (seekK(src, q2, 3, d0) == 1 && seekCanon(src, q2, 3, d0)))))
+//@   let k4 = decStrK(src, q3, 4, false, d0)
+//@   let q4 = (k4 == 0 ? decStrP(src, q3, 4, d0) : seekP(src, q3, 4, d0))
+//@   let ok4 = ok3 && (k4 == 0 || (k4 == 1 && (seekK(src, q3, 4, d0) == 2 || (seekK(src, q3, 4, d0) == 1 && seekCanon(src, q3, 4, d0)))))
+//@   opaque [C04] *
+//@   perreturn
+//@   ensures [C04] (ok1 && err == nil) ==> st.SObjName == (k1 == 0 ? decStrV(src, q0, 1, d0) : old(st.SObjName))
+//@   ensures [C04] (ok2 && err == nil) ==> st.SAccessKey == (k2 == 0 ? decStrV(src, q1, 2, d0) : old(st.SAccessKey))
+//@   ensures [C04] (ok3 && err == nil) ==> st.SSecretKey == (k3 == 0 ? decStrV(src, q2, 3, d0) : old(st.SSecretKey))
+//@   ensures [C04] (ok4 && err == nil) ==> st.SHashSecretKey2 == (k4 == 0 ? decStrV(src, q3, 4, d0) : old(st.SHashSecretKey2))
+//@   ensures [C04] ok4 ==> (err == nil && readBuf.buf.i == q4)
 //@   safety [C05]
 //
 //@ func (*BasicAuthInfo).ReadBlock
@@ -49,7 +71,8 @@ package authf
 //
 //@ func (*BasicAuthPackage).ResetDefault
 //@   requires st != nil
-//@   modifies *st
+//@   modifies st.SHashMethod
+//@   ensures [C04] st.SHashMethod == "sha1"
 //@   safety [C05]
 //
 //@ func (*BasicAuthPackage).ReadFrom
@@ -60,6 +83,32 @@ package authf
 //@   allocates
 //@   ensures [C05] readBuf.buf.i >= p0
 //@   ensures [C05] validR(readBuf)
+//@   let src = readBuf.buf.src
+//@   let d0 = readBuf.depth
+//@   let q0 = readBuf.buf.i
+//@   let k1 = decStrK(src, q0, 1, true, d0)
+//@   let q1 = (k1 == 0 ? decStrP(src, q0, 1, d0) : seekP(src, q0, 1, d0))
+//@   let ok1 = (k1 == 0 || (k1 == 1 && (seekK(src, q0, 1, d0) == 2 || (seekK(src, q0, 1, d0) == 1 && seekCanon(src, q0, 1, d0)))))
+//@   let k2 = decStrK(src, q1, 2, true, d0)
+//@   let q2 = (k2 == 0 ? decStrP(src, q1, 2, d0) : seekP(src, q1, 2, d0))
+//@   let ok2 = ok1 && (k2 == 0 || (k2 == 1 && (seekK(src, q1, 2, d0) == 2 || (seekK(src, q1, 2, d0) == 1 && seekCanon(src, q1, 2, d0)))))
+//@   let k3 = decIntK(src, q2, 3, true, 8, d0)
+//@   let q3 = (k3 == 0 ? decIntP(src, q2, 3, d0) : seekP(src, q2, 3, d0))
+//@   let ok3 = ok2 && (k3 == 0 || (k3 == 1 && (seekK(src, q2, 3, d0) == 2 || (seekK(src, q2, 3, d0) == 1 && seekCanon(src, q2, 3, d0)))))
+//@   let k4 = decStrK(src, q3, 4, false, d0)
+//@   let q4 = (k4 == 0 ? decStrP(src, q3, 4, d0) : seekP(src, q3, 4, d0))
+//@   let ok4 = ok3 && (k4 == 0 || (k4 == 1 && (seekK(src, q3, 4, d0) == 2 || (seekK(src, q3, 4, d0) == 1 && seekCanon(src, q3, 4, d0)))))
+//@   let k5 = decStrK(src, q4, 5, false, d0)
+//@   let q5 = (k5 == 0 ? decStrP(src, q4, 5, d0) : seekP(src, q4, 5, d0))
+//@   let ok5 = ok4 && (k5 == 0 || (k5 == 1 && (seekK(src, q4, 5, d0) == 2 || (seekK(src, q4, 5, d0) == 1 && seekCanon(src, q4, 5, d0)))))
+//@   opaque [C04] *
+//@   perreturn
+//@   ensures [C04] (ok1 && err == nil) ==> st.SObjName == (k1 == 0 ? decStrV(src, q0, 1, d0) : old(st.SObjName))
+//@   ensures [C04] (ok2 && err == nil) ==> st.SAccessKey == (k2 == 0 ? decStrV(src, q1, 2, d0) : old(st.SAccessKey))
+//@   ensures [C04] (ok3 && err == nil) ==> st.ITime == (k3 == 0 ? decIntV(src, q2, 3, d0) : old(st.ITime))
+//@   ensures [C04] (ok4 && err == nil) ==> st.SHashMethod == (k4 == 0 ? decStrV(src, q3, 4, d0) : "sha1")
+//@   ensures [C04] (ok5 && err == nil) ==> st.SSignature == (k5 == 0 ? decStrV(src, q4, 5, d0) : old(st.SSignature))
+//@   ensures [C04] ok5 ==> (err == nil && readBuf.buf.i == q5)
 //@   safety [C05]
 //
 //@ func (*BasicAuthPackage).ReadBlock
@@ -89,7 +138,7 @@ package authf
 //
 //@ func (*TokenKey).ResetDefault
 //@   requires st != nil
-//@   modifies *st
+//@   pure
 //@   safety [C05]
 //
 //@ func (*TokenKey).ReadFrom
@@ -100,6 +149,24 @@ package authf
 //@   allocates
 //@   ensures [C05] readBuf.buf.i >= p0
 //@   ensures [C05] validR(readBuf)
+//@   let src = readBuf.buf.src
+//@   let d0 = readBuf.depth
+//@   let q0 = readBuf.buf.i
+//@   let k1 = decStrK(src, q0, 1, true, d0)
+//@   let q1 = (k1 == 0 ? decStrP(src, q0, 1, d0) : seekP(src, q0, 1, d0))
+//@   let ok1 = (k1 == 0 || (k1 == 1 && (seekK(src, q0, 1, d0) == 2 || (seekK(src, q0, 1, d0) == 1 && seekCanon(src, q0, 1, d0)))))
+//@   let k2 = decStrK(src, q1, 2, true, d0)
+//@   let q2 = (k2 == 0 ? decStrP(src, q1, 2, d0) : seekP(src, q1, 2, d0))
+//@   let ok2 = ok1 && (k2 == 0 || (k2 == 1 && (seekK(src, q1, 2, d0) == 2 || (seekK(src, q1, 2, d0) == 1 && seekCanon(src, q1, 2, d0)))))
+//@   let k3 = decStrK(src, q2, 3, true, d0)
+//@   let q3 = (k3 == 0 ? decStrP(src, q2, 3, d0) : seekP(src, q2, 3, d0))
+//@   let ok3 = ok2 && (k3 == 0 || (k3 == 1 && (seekK(src, q2, 3, d0) == 2 || (seekK(src, q2, 3, d0) == 1 && seekCanon(src, q2, 3, d0)))))
+//@   opaque [C04] *
+//@   perreturn
+//@   ensures [C04] (ok1 && err == nil) ==> st.SApplication == (k1 == 0 ? decStrV(src, q0, 1, d0) : old(st.SApplication))
+//@   ensures [C04] (ok2 && err == nil) ==> st.SServer == (k2 == 0 ? decStrV(src, q1, 2, d0) : old(st.SServer))
+//@   ensures [C04] (ok3 && err == nil) ==> st.SObjName == (k3 == 0 ? decStrV(src, q2, 3, d0) : old(st.SObjName))
+//@   ensures [C04] ok3 ==> (err == nil && readBuf.buf.i == q3)
 //@   safety [C05]
 //
 //@ func (*TokenKey).ReadBlock
